@@ -284,8 +284,15 @@ func VerifC04_TotalNested() {
 	pos := nondetChoice("pos", 5)
 	dk := nondetChoice("data", verifNData)
 	op := nondetChoice("op", 4)
-	inner := nondetChoice("inner", 4)
+	nInner := 4
+	if verifTier() > 0 {
+		nInner = 4 + verifNSchemas // thorough: every schema kind of the flat harness as the inner type
+	}
+	inner := nondetChoice("inner", nInner)
 	var it Type
+	if inner >= 4 {
+		it = verifTotalSchema(inner - 4)
+	}
 	switch inner {
 	case 0:
 		it = NewIntSchema(nil, nil, nil)
@@ -296,7 +303,9 @@ func VerifC04_TotalNested() {
 	case 3:
 		it = NewAnySchema()
 	}
-	d := verifData("", dk, inner == 1 || pos == 1, false)
+	sk := inner - 4
+	stringy := inner == 1 || pos == 1 || sk == 2 || sk == 4 || sk == 6 || sk == 7 || sk == 9 || sk == 14 || sk == 16
+	d := verifData("", dk, stringy, sk == 4)
 	var s Type
 	var outer any
 	switch pos {
